@@ -511,6 +511,44 @@ def r6(ctx):
         why = 'every read of the molecule contributes its aligned bases' if ok else f'reads are skipped by {flags}: after write_tags only the first fragment would be observed'
     ctx.emit('C15-R6', ok, MOLECULE, inner[0] if inner else l, 'get_base_confidence_dict: ' + why, key='observations-from-every-read',
              what='get_base_confidence_dict skips reads by their flags')
+    # the probability of an observation is 1 - 10^(-Q/10): a power of ten whose exponent is the negated quality over ten in TRUE division
+    pows = []
+    for n_ in walk_no_nested(g):
+        if isinstance(n_, ast.BinOp) and isinstance(n_.op, ast.Pow):
+            pows.append((n_.left, n_.right, n_))
+        elif isinstance(n_, ast.Call) and last_name(dotted(n_.func) or '') in ('power', 'pow') and len(n_.args) == 2:
+            pows.append((n_.args[0], n_.args[1], n_))
+    okp = len(pows) == 1
+    whyp = f'{len(pows)} power expressions'
+    if okp:
+        base, expo, node = pows[0]
+        qn = {src(s_.targets[0]) for s_ in walk_no_nested(g) if isinstance(s_, ast.Assign) and len(s_.targets) == 1 and 'qualit' in src(s_.value)} | {f'{rv}.query_qualities[qpos]'}
+        e_ = expo
+        neg = False
+        if isinstance(e_, ast.UnaryOp) and isinstance(e_.op, ast.USub):
+            neg, e_ = True, e_.operand
+        if isinstance(e_, ast.BinOp) and isinstance(e_.left, ast.UnaryOp) and isinstance(e_.left.op, ast.USub):
+            neg, e_ = True, ast.BinOp(left=e_.left.operand, op=e_.op, right=e_.right)
+        true_div = isinstance(e_, ast.BinOp) and isinstance(e_.op, ast.Div) and src(e_.right) in ('10', '10.0') and (src(e_.left) in qn or 'qual' in src(e_.left))
+        okp = src(base) in ('10', '10.0') and neg and true_div
+        whyp = f'observation probability uses {src(node)[:50]}' + ('' if okp else ': not 10 ** (-Q / 10) with true division (floor division buckets the qualities by tens)')
+    ctx.emit('C15-R6', okp, MOLECULE, pows[0][2] if pows else g, 'get_base_confidence_dict: ' + whyp, key='phred-to-probability',
+             what='get_base_confidence_dict: phred to probability conversion is not 1 - 10^(-Q/10)')
+    # covered reference positions are the aligned (matched) positions of the reads, not their reference spans (which include deletions / skips)
+    ab = ctx.fn(MOLECULE, 'Molecule.get_aligned_blocks')
+    comps = [c_ for c_ in walk_no_nested(ab) if isinstance(c_, (ast.GeneratorExp, ast.ListComp, ast.SetComp))]
+    okb = False
+    whyb = 'positions are not collected by one comprehension'
+    if len(comps) >= 1:
+        c_ = comps[-1] if len(comps) == 1 else max(comps, key=lambda x: len(x.generators))
+        gens = c_.generators
+        pair_gen = [g_ for g_ in gens if isinstance(g_.iter, ast.Call) and isinstance(g_.iter.func, ast.Attribute) and g_.iter.func.attr == 'get_aligned_pairs']
+        okb = len(pair_gen) == 1 and any(k.arg == 'matches_only' and src(k.value) == 'True' for k in pair_gen[0].iter.keywords) and isinstance(pair_gen[0].target, ast.Tuple) \
+            and len(pair_gen[0].target.elts) >= 2 and src(c_.elt) == src(pair_gen[0].target.elts[1]) and not any(g_.ifs for g_ in gens)
+        whyb = 'covered positions = reference positions of get_aligned_pairs(matches_only=True) of every read' if okb else \
+            f'covered positions `{src(c_)[:90]}` are not the matched reference positions of every read (a reference span also covers deleted / skipped bases)'
+    ctx.emit('C15-R6', okb, MOLECULE, ab, 'get_aligned_blocks: ' + whyb, key='aligned-blocks-from-matches',
+             what='get_aligned_blocks: covered positions include deleted / skipped reference bases or skip reads')
 
 
 META = {
